@@ -52,7 +52,8 @@ Proof.
   repeat case_decide; try done.
   - destruct (ps_op st), (ps_args st); done.
   - destruct (ps_op st), (ps_args st); done.
-  - destruct (is_priv_char m).
+  - destruct (is_list_mode_char m); [by destruct (ps_args st)|].
+    destruct (is_priv_char m).
     + destruct (ps_args st) as [|a args']; [done|].
       destruct (ps_mem st !! (c, a)) as [p|] eqn:L; [|done].
       destruct (priv_char m (ps_op st) p) as [p'|]; [|done]. simpl.
@@ -80,7 +81,8 @@ Proof.
   repeat case_decide; try done.
   - destruct (ps_op st), (ps_args st); done.
   - destruct (ps_op st), (ps_args st); done.
-  - destruct (is_priv_char m).
+  - destruct (is_list_mode_char m); [by destruct (ps_args st)|].
+    destruct (is_priv_char m).
     + destruct (ps_args st) as [|a args']; [done|].
       destruct (ps_mem st !! (c, a)) as [p|] eqn:L; [|done].
       destruct (priv_char m (ps_op st) p) as [p'|]; [|done]. simpl.
